@@ -122,6 +122,51 @@ def custom_sign_patterns(tier, seed):
     return res
 
 
+def custom_conic_conic(tier, seed):
+    """concrete pencils (supplementary, not a solver verdict): every returned point lies on both conics, at most four, known real common points are returned"""
+    from geometer import Conic, Circle, Point, Line
+    t0 = time.time()
+    res = {"paths": 0, "forks": 0, "obligations": 0, "ob_total": 0, "violations": [], "inconclusive": [], "samples": [], "by_step": {"evaluated": 0},
+           "outcomes": {}, "reach": {}, "validated": 0, "solver_time": 0.0}
+    axes = Conic.from_lines(Line(1, 0, 0), Line(0, 1, 0))
+    pairs = {
+        "circle-circle": (Circle(Point(0, 0), 5), Circle(Point(6, 0), 5), [(3, 4), (3, -4)]),
+        "axes-pair/circle(3,0)r1": (axes, Circle(Point(3, 0), 1), [(2, 0), (4, 0)]),
+        "axes-pair/circle(0,0)r2": (axes, Circle(Point(0, 0), 2), [(2, 0), (-2, 0), (0, 2), (0, -2)]),
+        "circle/axes-pair": (Circle(Point(3, 0), 1), axes, [(2, 0), (4, 0)]),
+        "ellipse/circle": (Conic(np.diag([1.0, 4.0, -4.0])), Circle(Point(0, 0), 1.5), []),
+    }
+    for name, (c1, c2, known) in pairs.items():
+        res["ob_total"] += 1
+        res["obligations"] += 1
+        res["by_step"]["evaluated"] += 1
+        res["paths"] += 1
+        bad = None
+        try:
+            pts = c1.intersect(c2)
+            if len(pts) > 4:
+                bad = "more-than-four-points"
+            for p in pts:
+                x = np.asarray(p.array, dtype=complex)
+                x = x / np.abs(x).max()
+                for A in (c1.array, c2.array):
+                    A = np.asarray(A, dtype=complex)
+                    if abs(x @ A @ x) > 1e-6 * np.abs(A).max():
+                        bad = "returned-point-not-on-both-conics"
+            for k in known:
+                kk = np.array([k[0], k[1], 1.0])
+                if not any(np.abs(np.cross(np.asarray(p.array, dtype=complex) / np.abs(p.array).max(), kk)).max() < 1e-6 for p in pts):
+                    bad = bad or "known-common-point-missing"
+        except Exception as e:
+            bad = f"{type(e).__name__}"
+        if bad:
+            res["violations"].append({"case": "conic_conic_lattice", "obligation": f"{name}:{bad}", "env": {}, "replay": {"failed": [f"{name}:{bad}"]}})
+        elif len(res["samples"]) < 3:
+            res["samples"].append({"case": "conic_conic_lattice", "pencil": name, "verdict": "returned points lie on both conics (concrete evaluation)"})
+    res["wall"] = time.time() - t0
+    return res
+
+
 def cases(tier, seed):
     Q, T = ("quick", "thorough"), ("thorough",)
     cs = []
@@ -132,4 +177,5 @@ def cases(tier, seed):
         add(f"from_lines_free_x_h{k}", mk_from_lines(k), tiers=Q, max_paths=4000)
     add("is_degenerate", case_is_degenerate, tiers=Q)
     cs.append(Case("sign_patterns", custom_sign_patterns, kind="custom"))
+    cs.append(Case("conic_conic_lattice", custom_conic_conic, kind="custom"))
     return cs
